@@ -26,6 +26,7 @@ package epubdoc
 // encrypted content = some entry that is not font obfuscation and covers a content document
 //@ func hasEncryptedContent results (r, err)
 //@   property C20
+//@   flags readonly
 //@   ensures decision: !err ==> (r <==> exists k int :: 0 <= k && k < len(enc.EncryptedData) && !isFontObfuscation(enc.EncryptedData[k].EncryptionMethod.Algorithm) && isContentFile(strings.ToLower(enc.EncryptedData[k].CipherData.CipherReference.URI)))
 //@   loop 0:
 //@     invariant forall k int :: {enc.EncryptedData[k]} 0 <= k && k < $i ==> !(!isFontObfuscation(enc.EncryptedData[k].EncryptionMethod.Algorithm) && isContentFile(strings.ToLower(enc.EncryptedData[k].CipherData.CipherReference.URI)))
